@@ -821,7 +821,7 @@ func TestC37(t *testing.T) {
 		}
 	}
 	seeds := r.Rand("histories")
-	n := r.N(1500, 30000)
+	n := r.N(1000, 14000)
 	type job struct {
 		a, b uint64
 		ln   int
